@@ -28,7 +28,8 @@ CONSTANTS T,          \* time grid 0..T
           GridFix,    \* TRUE: partition keeps the running start on the request grid (code as fixed)
           Unaligned,  \* TRUE: also step-align off with unaligned queries (exhibits the known finding)
           MaxHist,    \* 0: histories of any length (state = cache); n > 0: at most n queries per history
-          HistLen     \* length of the histories serialised for the harness
+          HistLen,    \* length of the histories serialised for the harness
+          CaseWorlds  \* worlds whose histories are serialised
 
 (* ---- worlds: series 1 sorts before series 2 ---- *)
 Always == <<[lo |-> 0, hi |-> T]>>
@@ -36,7 +37,7 @@ World(i) ==
     CASE i = 1 -> <<Always>>                                              \* one series, always there
       [] i = 2 -> <<<<[lo |-> T \div 2, hi |-> T]>>, Always>>               \* first series appears mid-way
       [] i = 3 -> <<Always, <<[lo |-> 0, hi |-> T \div 2]>>>>               \* second series disappears
-      [] i = 4 -> <<<<[lo |-> 0, hi |-> 1], [lo |-> T - 2, hi |-> T]>>, Always>>   \* first series has a gap
+      [] i = 4 -> <<<<[lo |-> 0, hi |-> 1], [lo |-> T - 1, hi |-> T]>>, Always>>   \* first series has a gap
       [] i = 5 -> <<<<[lo |-> 2, hi |-> T \div 2]>>, <<[lo |-> (T \div 2) + 1, hi |-> T]>>>>  \* hand-over, nothing before 2
       [] OTHER -> <<Always>>
 
@@ -92,6 +93,6 @@ C42_ExtentsOrdered ==
 CasesFile == IF "VERIF_CASES" \in DOMAIN IOEnv THEN IOEnv.VERIF_CASES ELSE "cases.ndjson"
 GenQ == { x \in Queries(TRUE) : x.s <= x.e /\ AlignedQ(x) }
 Hists == [1..HistLen -> GenQ]
-CaseSet == { [iv |-> i, world |-> World(wi), minext |-> MinExt, T |-> T, hist |-> h] : i \in Ivs, wi \in WorldIds, h \in Hists }
+CaseSet == { [iv |-> i, world |-> World(wi), minext |-> MinExt, T |-> T, hist |-> h] : i \in Ivs, wi \in CaseWorlds, h \in Hists }
 ASSUME ndJsonSerialize(CasesFile, SetToSeq(CaseSet))
 =============================================================================
